@@ -9,7 +9,7 @@ Proof. unfold forall_bool. intros H b. apply andb_true_iff in H. destruct H, b; 
 Definition sweep (P : env -> bool) : bool :=
   forall_bool (fun a => forall_bool (fun b => forall_bool (fun c => forall_bool (fun d => forall_bool (fun f =>
   forall_bool (fun g => forall_bool (fun h => forall_bool (fun i =>
-    P {| e_admit := a; e_has_pre := b; e_pre_ok := c; e_dry := d; e_probe_timeout := f; e_probe_running := g;
+    P {| e_gaccept := a; e_has_pre := b; e_pre_ok := c; e_dry := d; e_probe_timeout := f; e_probe_running := g;
          e_open_ok := h; e_bind_ok := i |})))))))).
 
 (* finite domain: a boolean statement checked on all 256 environments holds for every environment *)
@@ -48,20 +48,20 @@ Proof. destruct a, b; simpl; intros; auto; discriminate. Qed.
 Ltac use_imp S := match type of S with imp ?a ?b = true => apply (imp_elim a b) in S end.
 
 (* C14: a refused graph does nothing but build the graph *)
-Lemma refused_graph_is_silent e : e_admit e = false -> run e = ([ABuildGraph], true).
+Lemma refused_graph_is_silent e : e_gaccept e = false -> run e = ([ABuildGraph], true).
 Proof.
   intros H.
-  pose proof (by_sweep (fun e => imp (negb (e_admit e)) (acts_eqb (fst (run e)) [ABuildGraph] && snd (run e))) ltac:(vm_compute; reflexivity) e) as S; cbv beta in S.
+  pose proof (by_sweep (fun e => imp (negb (e_gaccept e)) (acts_eqb (fst (run e)) [ABuildGraph] && snd (run e))) ltac:(vm_compute; reflexivity) e) as S; cbv beta in S.
   use_imp S; [|now rewrite H]. apply andb_true_iff in S. destruct S as [S1 S2].
   apply acts_eqb_eq in S1. destruct (run e); simpl in *; congruence.
 Qed.
 
 (* C04: unmet DAG preconditions: no step, handler, probe, history or socket action *)
-Lemma unmet_dag_precondition e : e_admit e = true -> e_has_pre e = true -> e_pre_ok e = false ->
+Lemma unmet_dag_precondition e : e_gaccept e = true -> e_has_pre e = true -> e_pre_ok e = false ->
   run e = ([ABuildGraph; AEvalPre; ACancelAll], true).
 Proof.
   intros H1 H2 H3.
-  pose proof (by_sweep (fun e => imp (e_admit e && e_has_pre e && negb (e_pre_ok e))
+  pose proof (by_sweep (fun e => imp (e_gaccept e && e_has_pre e && negb (e_pre_ok e))
       (acts_eqb (fst (run e)) [ABuildGraph; AEvalPre; ACancelAll] && snd (run e))) ltac:(vm_compute; reflexivity) e) as S; cbv beta in S.
   use_imp S; [|now rewrite H1, H2, H3]. apply andb_true_iff in S. destruct S as [S1 S2].
   apply acts_eqb_eq in S1. destruct (run e); simpl in *; congruence.
@@ -82,14 +82,14 @@ Proof.
 Qed.
 
 (* C16: a start that finds the DAG running performs nothing after the probe *)
-Lemma refused_start_is_silent e : e_admit e = true -> (e_has_pre e = true -> e_pre_ok e = true) -> e_dry e = false ->
+Lemma refused_start_is_silent e : e_gaccept e = true -> (e_has_pre e = true -> e_pre_ok e = true) -> e_dry e = false ->
   e_probe_running e = true \/ e_probe_timeout e = true ->
   let acts := fst (run e) in
   snd (run e) = true /\ existsb is_hist acts = false /\ existsb is_sched acts = false /\ existsb is_sock acts = false
   /\ last acts ABuildGraph = AProbe.
 Proof.
   intros H1 H2 H3 H4.
-  pose proof (by_sweep (fun e => imp (e_admit e && imp (e_has_pre e) (e_pre_ok e) && negb (e_dry e) &&
+  pose proof (by_sweep (fun e => imp (e_gaccept e && imp (e_has_pre e) (e_pre_ok e) && negb (e_dry e) &&
                                       (e_probe_running e || e_probe_timeout e))
       (snd (run e) && negb (existsb is_hist (fst (run e))) && negb (existsb is_sched (fst (run e))) &&
        negb (existsb is_sock (fst (run e))) && act_eqb (last (fst (run e)) ABuildGraph) AProbe)) ltac:(vm_compute; reflexivity) e) as S; cbv beta in S.
@@ -103,23 +103,23 @@ Qed.
 
 (* history is touched only after a probe that said "not running" *)
 Lemma hist_after_probe e : existsb is_hist (fst (run e)) = true ->
-  e_admit e = true /\ e_dry e = false /\ e_probe_running e = false /\ e_probe_timeout e = false.
+  e_gaccept e = true /\ e_dry e = false /\ e_probe_running e = false /\ e_probe_timeout e = false.
 Proof.
   intros H.
   pose proof (by_sweep (fun e => imp (existsb is_hist (fst (run e)))
-      (e_admit e && negb (e_dry e) && negb (e_probe_running e) && negb (e_probe_timeout e))) ltac:(vm_compute; reflexivity) e) as S; cbv beta in S.
+      (e_gaccept e && negb (e_dry e) && negb (e_probe_running e) && negb (e_probe_timeout e))) ltac:(vm_compute; reflexivity) e) as S; cbv beta in S.
   use_imp S; [|exact H]. repeat (apply andb_true_iff in S; destruct S as [S ?]).
   repeat split; try (apply negb_true_iff; assumption); auto.
 Qed.
 
 (* commands run only when every gate was passed *)
 Lemma exec_needs_everything e : existsb is_exec (fst (run e)) = true ->
-  e_admit e = true /\ (e_has_pre e = true -> e_pre_ok e = true) /\ e_dry e = false /\ e_probe_running e = false
+  e_gaccept e = true /\ (e_has_pre e = true -> e_pre_ok e = true) /\ e_dry e = false /\ e_probe_running e = false
   /\ e_probe_timeout e = false /\ e_open_ok e = true /\ e_bind_ok e = true.
 Proof.
   intros H.
   pose proof (by_sweep (fun e => imp (existsb is_exec (fst (run e)))
-      (e_admit e && imp (e_has_pre e) (e_pre_ok e) && negb (e_dry e) && negb (e_probe_running e)
+      (e_gaccept e && imp (e_has_pre e) (e_pre_ok e) && negb (e_dry e) && negb (e_probe_running e)
        && negb (e_probe_timeout e) && e_open_ok e && e_bind_ok e)) ltac:(vm_compute; reflexivity) e) as S; cbv beta in S.
   use_imp S; [|exact H]. repeat (apply andb_true_iff in S; destruct S as [S ?]).
   repeat split; try (apply negb_true_iff; assumption); auto.
